@@ -119,6 +119,20 @@ def scenarios(tier):
         name = "halt:trades_in_step0-L%d" % L
         sc[name] = Scenario(name, mkcfg([S(0, 7, True, True, maxNormalOrders=2, events=["H"])], markets=[dict(name="M0")], agents=ags, events=ev),
                             observer=make_running_observer(), meta=dict(halt_rules=[dict(targets=["M0"], r=0.25, L=L)]))
+    # the halting fill comes from a high-frequency agent's order, and the same agent's batch (or the next high-frequency
+    # agent's) goes on with a crossing order for the market that has just been stopped
+    for L in (1, 2):
+        for nh in (1, 2):
+            mn = menu(1)
+            pa = [0, 4, 0, 0, 3, 0, 0]
+            pb = [0, 2, 0, 0, 4, 0, 0]
+            ags = [dict(name="A0", menu=mn, program=pa, markets=["M0"]), dict(name="A1", menu=mn, program=pb, markets=["M0"])]
+            ags += [dict(name="H%d" % i, cls="ScriptedHFAgent", menu=mn, program=[0, 16, 0, 0, 0, 3, 0, 0] if i == 0 else [0, 3, 0, 0, 0, 0], markets=["M0"]) for i in range(nh)]
+            ev = {"H": {"class": "TradingHaltRule", "targetMarkets": ["M0"], "triggerChangeRate": 0.25, "haltingTimeLength": L}}
+            name = "halt:hft_orders_after_the_halting_fill-L%d-%dhft" % (L, nh)
+            sc[name] = Scenario(name, mkcfg([S(0, 7, True, True, maxNormalOrders=2, maxHighFrequencyOrders=nh, highFrequencySubmitRate=1.0, events=["H"])],
+                                            markets=[dict(name="M0")], agents=ags, events=ev),
+                                observer=make_running_observer(), meta=dict(halt_rules=[dict(targets=["M0"], r=0.25, L=L)]))
     # a two-tier breaker: two rules on the SAME market with different rates and halt lengths; the path crosses the
     # first rule's line (125), is resumed, then crosses only the second rule's line (140)
     for L2 in (2, 3):
